@@ -242,6 +242,13 @@ type MixFractionObject struct {
 // But changes to the mix settings need to be kept separate from LanceroSource.distrubuteData,
 // which is part of the data-*production* step, not the data-processing step.
 func (s *SourceControl) ConfigureMixFraction(mfo *MixFractionObject, reply *bool) error {
+	*reply = false
+	// Mix requests are served by the running source's data-production loop. With no source
+	// running nobody would ever answer, and this call would block forever.
+	s.handlePossibleStoppedSource()
+	if !s.isSourceActive {
+		return fmt.Errorf("no source is active")
+	}
 	currentMix, err := s.ActiveSource.ConfigureMixFraction(mfo)
 	*reply = (err == nil)
 	s.broadcastMixState(currentMix)
